@@ -44,6 +44,9 @@ def part_text(p, v):
     raise ValueError(k)
 
 
+# texts that are no selector, each for a different reason (the last ones only because of a misplaced universal selector)
+BAD_SELECTORS = ["x#y#z.k >", "$", "x#y.k*", "x:not(#y*)", "x#y.k,,"]
+BAD_MEMBERS = ["$", "r*", "a:not(b*)", "#i*"]
 VARIANTS = [{}, {"ws": True}, {"upper": True}, {"comment": True, "quote": True}, {"escape": True, "ws": True, "upper": True}]
 
 
@@ -119,7 +122,7 @@ def run_row(item):
             # a rejected assignment (logging mode: nothing is raised) must not leave a specificity that belongs to another text
             cssutils.log.raiseExceptions = False
             try:
-                s.selectorText = "x#y#z.k >"
+                s.selectorText = BAD_SELECTORS[(rid + len(text)) % len(BAD_SELECTORS)]
             except Exception:
                 pass
             cssutils.log.raiseExceptions = True
@@ -150,10 +153,11 @@ def run_list_trace(item):
     tr = {"id": item["id"], "init": project_list(sl), "steps": []}
     for a in item["actions"]:
         cssutils.log.raiseExceptions = a["mode"] == "raise"
+        bad = BAD_MEMBERS[item["id"] % len(BAD_MEMBERS)]
         if a["op"] == "append":
-            out, _ = outcome(lambda: sl.appendSelector("$" if a["s"] == "#bad" else a["s"]))
+            out, _ = outcome(lambda: sl.appendSelector(bad if a["s"] == "#bad" else a["s"]))
         else:
-            out, _ = outcome(lambda: setattr(sl, "selectorText", ", ".join("$x" if s == "#bad" else s for s in a["ss"])))
+            out, _ = outcome(lambda: setattr(sl, "selectorText", ", ".join(bad if s == "#bad" else s for s in a["ss"])))
         cssutils.log.raiseExceptions = True
         tr["steps"].append({"a": a, "out": out, "post": project_list(sl)})
     return tr
